@@ -86,6 +86,9 @@ func (cs c17Case) print() (pat, text string, span []string) {
 		top := stack[len(stack)-1]
 		stack = stack[:len(stack)-1]
 		end[top] = at
+		if e := cs.Evs[top]; e.K == "x" && e.Sp >= 4 {
+			sb.WriteString("|(?!)") // the conditional's other branch never matches
+		}
 		sb.WriteByte(')')
 	}
 	for i, e := range cs.Evs {
@@ -96,7 +99,14 @@ func (cs c17Case) print() (pat, text string, span []string) {
 		case "u":
 			sb.WriteString("(")
 		case "x":
-			sb.WriteString("(?:")
+			switch e.Sp {
+			case 4: // a conditional whose condition is a lookahead (true here): its yes-branch is the group's content
+				sb.WriteString("(?(?=" + c17Lit(i) + ")")
+			case 5: // … a negative lookbehind for a character the subject never contains
+				sb.WriteString("(?(?<!#)")
+			default:
+				sb.WriteString("(?:")
+			}
 		case "n", "k":
 			id := e.Name
 			if e.K == "k" {
@@ -140,6 +150,9 @@ func (cs c17Case) printOpt() (pat string, top []int) {
 	top = make([]int, n)
 	var stack []int
 	closeOne := func() {
+		if e := cs.Evs[stack[len(stack)-1]]; e.K == "x" && e.Sp >= 4 {
+			sb.WriteString("|(?!)")
+		}
 		stack = stack[:len(stack)-1]
 		sb.WriteByte(')')
 		if len(stack) == 0 {
@@ -154,7 +167,14 @@ func (cs c17Case) printOpt() (pat string, top []int) {
 		case "u":
 			sb.WriteString("(")
 		case "x":
-			sb.WriteString("(?:")
+			switch e.Sp {
+			case 4: // a conditional whose condition is a lookahead (true here): its yes-branch is the group's content
+				sb.WriteString("(?(?=" + c17Lit(i) + ")")
+			case 5: // … a negative lookbehind for a character the subject never contains
+				sb.WriteString("(?(?<!#)")
+			default:
+				sb.WriteString("(?:")
+			}
 		case "n", "k":
 			id := e.Name
 			if e.K == "k" {
@@ -302,6 +322,9 @@ func c17Gen(rng *rand.Rand, i int) c17Case {
 			}
 		case r < 9:
 			e.K = "x"
+			if !cs.Re2 && !cs.Ecma && rng.Intn(3) == 0 {
+				e.Sp = 4 + rng.Intn(2)
+			}
 		default:
 			e.K = "u"
 		}
